@@ -12,7 +12,7 @@ RULE = ("histories of set k v / set (k,k') v / del k (/ delattr k for StrategyDi
         "(and getattr / default / calling the dict for StrategyDict). Quick: all histories of length 3 over 3 keys x 2 "
         "values (exhaustive) + seeded random longer ones over 6 keys x 4 values; non-trivial = at least one value owning "
         ">= 2 keys at some point and at least one deletion or overwrite of an existing key")
-EXHAUSTIVE = {"quick": True, "thorough": True}
+EXHAUSTIVE = {"quick": False, "thorough": True}
 trusted_base = ["keys are modelled as naturals (ints for MultiKeyDict, attribute-safe names 'a'..'f' for StrategyDict); "
                 "names colliding with class attributes of StrategyDict ('default', 'strategy', dict methods) are outside the model"]
 ASSUMPTIONS = ["CPython dict ordering semantics (insertion order, update in place)"]
@@ -38,22 +38,22 @@ def ops_universe(nk, nv, strategy):
 
 def gen_dict(tier, rng):
   for strategy in (False, True):
+    tag = "sd" if strategy else "mkd"
     U = ops_universe(3, 2, strategy)
-    n = 3
-    for h in itertools.product(U, repeat=n):
-      yield {"strategy": strategy, "nk": 3, "nv": 2, "ops": list(h), "tags": ["exh3", "sd" if strategy else "mkd"]}
-    # length 4: exhaustive in the thorough tier, sampled otherwise
+    for h in itertools.product(U, repeat=2):
+      yield {"strategy": strategy, "nk": 3, "nv": 2, "ops": list(h), "tags": ["exh2", tag]}
     if tier == "thorough":
-      for h in itertools.product(U, repeat=4):
-        yield {"strategy": strategy, "nk": 3, "nv": 2, "ops": list(h), "tags": ["exh4", "sd" if strategy else "mkd"]}
+      for n in (3, 4):
+        for h in itertools.product(U, repeat=n):
+          yield {"strategy": strategy, "nk": 3, "nv": 2, "ops": list(h), "tags": ["exh%d" % n, tag]}
     else:
-      for _ in range(1500):
-        yield {"strategy": strategy, "nk": 3, "nv": 2, "ops": [rng.choice(U) for _ in range(rng.choice([4, 5, 6]))],
-               "tags": ["rand4-6", "sd" if strategy else "mkd"]}
+      for _ in range(3000):
+        yield {"strategy": strategy, "nk": 3, "nv": 2, "ops": [rng.choice(U) for _ in range(rng.choice([3, 3, 4, 5, 6]))],
+               "tags": ["rand3-6", tag]}
     U2 = ops_universe(6, 4, strategy) + [["set", [rng.randrange(6) for _ in range(3)], v] for v in range(1, 5) for _ in range(10)]
-    for _ in range(300 if tier == "quick" else 3000):
+    for _ in range(200 if tier == "quick" else 3000):
       yield {"strategy": strategy, "nk": 6, "nv": 4, "ops": [rng.choice(U2) for _ in range(rng.randrange(8, 41))],
-             "tags": ["long", "sd" if strategy else "mkd"]}
+             "tags": ["long", tag]}
 
 
 class Fn(object):
